@@ -33,6 +33,9 @@ from ..cfg import explore
 from ..rules import call_sites, node_calls
 from ..mutate import mutate, remove_stmts, replace_expr, replace_stmt, parse_stmt, parse_expr
 from ..model import AnalysisError
+from ..x_taint import flow_taint, expr_tainted
+from ..x_flow import expand_locals
+from ..x_sites import method_calls
 from ..x_peval import UNK, make_resolver, pure_self_methods, peval, try_fold
 
 TECHNIQUE = "partial evaluation of the transform's CFG over the full valuation space + call-sequence typestate + who-may-write / who-may-call"
@@ -288,29 +291,29 @@ def check_application(ck):
         raise AnalysisError("flush lost its include_footers parameter")
     footers = ps[1]
     cfg = fl.cfg
-    loops = cfg.stmt_nodes(lambda n: n.kind == "for" and q.dotted(n.ast.iter) == "self._transforms")
+    WB = "self._write_buffer"
+    loops = cfg.stmt_nodes(lambda n: n.kind == "for" and q.dotted(expand_locals(fl, n.ast.iter)) == "self._transforms")
+    tcalls = [(n, c) for n, c in cfg.find(lambda x: isinstance(x, ast.Call) and isinstance(x.func, ast.Attribute) and x.func.attr in ("transform_first_chunk", "transform_chunk"))]
     first_ids, later_ids = set(), set()
-    chunkvars = set()
-    for l in loops:
-        tv = l.ast.target.id if isinstance(l.ast.target, ast.Name) else None
-        for st in l.ast.body:
-            for c in q.calls(st):
-                if isinstance(c.func, ast.Attribute) and q.dotted(c.func.value) == tv and c.func.attr in ("transform_first_chunk", "transform_chunk"):
-                    first = c.func.attr == "transform_first_chunk"
-                    (first_ids if first else later_ids).add(l.id)
-                    fin_arg = q.arg(c, 3 if first else 1, "finishing")
-                    ck.ob("C29.transform-applied", fl, c, q.dotted(fin_arg) == footers, "the transform is told whether this is the finishing flush (%s)" % footers)
-                    chunk_arg = q.arg(c, 2 if first else 0, "chunk")
-                    tgt = None
-                    if isinstance(st, ast.Assign):
-                        t = st.targets[0]
-                        tgt = t.elts[2] if first and isinstance(t, ast.Tuple) and len(t.elts) == 3 else (t if not first else None)
-                    same = tgt is not None and q.dotted(tgt) is not None and q.dotted(tgt) == q.dotted(chunk_arg)
-                    ck.ob("C29.transform-applied", fl, c, same, "the transform's output replaces the chunk it was given")
-                    if same:
-                        chunkvars.add(q.dotted(tgt))
-                    if first and isinstance(st, ast.Assign) and isinstance(st.targets[0], ast.Tuple) and len(st.targets[0].elts) == 3:
-                        ck.ob("C29.transform-applied", fl, c, q.dotted(st.targets[0].elts[1]) == "self._headers" and q.dotted(q.arg(c, 1)) == "self._headers", "the transform edits the handler's header set")
+    buf = flow_taint(fl, [WB])
+    for node, c in tcalls:
+        first = c.func.attr == "transform_first_chunk"
+        owner = None
+        for l in loops:
+            tv = l.ast.target.id if isinstance(l.ast.target, ast.Name) else None
+            if tv and q.dotted(c.func.value) == tv and any(c is x for st in l.ast.body for x in ast.walk(st)):
+                owner = l
+        if owner is None:
+            raise AnalysisError("RequestHandler.flush applies %s outside a 'for t in self._transforms' loop: unknown idiom" % c.func.attr)
+        (first_ids if first else later_ids).add(owner.id)
+        fin_arg = q.arg(c, 3 if first else 1, "finishing")
+        ck.ob("C29.transform-applied", fl, c, fin_arg is not None and q.dotted(expand_locals(fl, fin_arg)) == footers, "the transform is told whether this is the finishing flush (%s)" % footers)
+        chunk_arg = q.arg(c, 2 if first else 0, "chunk")
+        fed = chunk_arg is not None and any(expr_tainted(chunk_arg, t) for t in buf.get(node.id, []))
+        ck.ob("C29.transform-applied", fl, c, fed, "the transform is given the pending output (data taken from the write buffer, possibly already transformed)")
+        if first:
+            h = q.arg(c, 1, "headers")
+            ck.ob("C29.transform-applied", fl, c, h is not None and q.dotted(expand_locals(fl, h)) == "self._headers", "the transform edits the handler's header set")
 
     def transfer(n, val):
         f, l = val
@@ -321,16 +324,26 @@ def check_application(ck):
         return (f, l)
 
     seen = explore(cfg, (False, False), transfer, lambda t: False, follow_exc=False)
-    for node, c in call_sites(fl, "self.request.connection.write_headers"):
+    out_first = flow_taint(fl, [], source_calls=(".transform_first_chunk",))
+    out_later = flow_taint(fl, [], source_calls=(".transform_chunk",))
+    wh = method_calls(fl, "write_headers", "self.request.connection")
+    w = method_calls(fl, "write", "self.request.connection")
+    if not wh or not w:
+        raise AnalysisError("RequestHandler.flush: connection.write_headers / connection.write call sites not found")
+    for node, c in wh:
         for _f, (f, l) in seen.get(node.id, ()):
             ck.ob("C29.transform-applied", fl, c, f, "the header block and first chunk are written only after every transform saw them", construct="write_headers before transform_first_chunk")
         a = q.arg(c, 2, "chunk")
-        ck.ob("C29.transform-applied", fl, c, q.dotted(a) in chunkvars or (isinstance(a, ast.Constant) and a.value == b""), "what is written is the transformed chunk")
-    for node, c in call_sites(fl, "self.request.connection.write"):
+        ck.ob("C29.transform-applied", fl, c, a is not None and any(expr_tainted(a, t, (), (".transform_first_chunk",)) for t in out_first.get(node.id, [])), "the first chunk written is the output of the transforms",
+              construct="first chunk written is not the transform output")
+        h = q.arg(c, 1, "headers")
+        ck.ob("C29.transform-applied", fl, c, h is not None and q.dotted(expand_locals(fl, h)) == "self._headers", "the header set written is the one the transforms edited")
+    for node, c in w:
         for _f, (f, l) in seen.get(node.id, ()):
             ck.ob("C29.transform-applied", fl, c, l, "later chunks are written only after every transform processed them", construct="write before transform_chunk")
         a = q.arg(c, 0, "chunk")
-        ck.ob("C29.transform-applied", fl, c, q.dotted(a) in chunkvars, "what is written is the transformed chunk")
+        ck.ob("C29.transform-applied", fl, c, a is not None and any(expr_tainted(a, t, (), (".transform_chunk",)) for t in out_later.get(node.id, [])), "the chunk written is the output of the transforms",
+              construct="later chunk written is not the transform output")
     # who flushes with the finishing flag
     fin = ck.func(WEB, RH + ".finish")
     n_true = 0
